@@ -74,7 +74,15 @@ E1small  == Atoms \cup {<<V3, L("[", 1), V1, L("]", 1)>>, <<V3, L("->", 2), V3>>
 IncDec   == {<<L("++", 2), V1>>, <<L("--", 2), V3>>, <<V1, L("++", 2)>>, <<V3, L("--", 2)>>,
              <<L("(", 1), L("*", 1), V3, L(")", 1), L("++", 2)>>}
 UnaryParen == {<<o, L("(", 1), V1, L(" + ", 3), N1, L(")", 1)>> : o \in {L("-", 1), L("!", 1), L("~", 1), L("*", 1)}}
-E1       == IncDec \cup UnaryParen \cup Postfix \cup Unary(Atoms \cup {<<V3, L("[", 1), V1, L("]", 1)>>, <<F4, L("(", 1), V1, L(")", 1)>>})
+(* a cast (keyword type: "(t_x)*p" would be a product) glued to what a cast can be applied to besides a name: a unary     *)
+(* operator, a character constant, sizeof                                                                            *)
+CastUnary == {<<L("(", 1), TY3, L(")", 1), o>> \o x : o \in UnOps \cup {L("*", 1), L("&", 1)}, x \in Vars}
+             \cup {<<L("(", 1), TY3, L(")", 1), C3>>, <<L("(", 1), L("unsigned char", 13), L(")", 1), C3>>,
+                   <<L("(", 1), L("unsigned char", 13), L(")", 1), L("*", 1), V3>>,
+                   <<L("(", 1), TY3, L(")", 1), L("sizeof(", 7), TY6, L(")", 1)>>,
+                   <<L("(", 1), TY3, L(")", 1), L("(", 1), L("*", 1), V3, L(")", 1)>>,
+                   <<L("*", 1), L("(", 1), TY3, L(" *)", 3), V3>>}
+E1       == CastUnary \cup IncDec \cup UnaryParen \cup Postfix \cup Unary(Atoms \cup {<<V3, L("[", 1), V1, L("]", 1)>>, <<F4, L("(", 1), V1, L(")", 1)>>})
             \cup Casts({<<V1>>, <<V3>>, <<N1>>, <<F4, L("(", 1), V1, L(")", 1)>>}) \cup Sizeofs
 
 (* ---- binary --------------------------------------------------------------- *)
